@@ -107,11 +107,15 @@ func waitNoZ80Goroutines() []string {
 const c13Bound = 3000 // bus accesses tolerated after the context is done (a correct loop needs 1..6)
 
 // C13 — cancellation of Run; whole binary under -race.
+var errC13Cause = fmt.Errorf("the operator pulled the plug")
+
+type c13DeviceFault struct{}
+
 func runC13(c *Ctx) {
 	mon.DiscardStdLog()
 	ncalls := c.Pick(2400, 40000)
 	r := mon.NewRng(uint64(c.Seed) ^ 0xC13)
-	var evals, leaks, promptTrips int64
+	var evals, leaks, promptTrips, unwound int64
 	distinct := mon.NewDistinct(1_000_000)
 	afterHist := map[string]int64{}
 	errKinds := map[string]int64{}
@@ -231,7 +235,8 @@ func runC13(c *Ctx) {
 		}
 
 		// context and cancellation mode
-		mode := []string{"cancel-in-callback", "cancel-in-callback", "cancel-from-goroutine", "cancelled-before-call", "deadline-expired", "deadline-1ms", "child-of-cancelled-parent", "never"}[r.Intn(8)]
+		mode := []string{"cancel-in-callback", "cancel-in-callback", "cancel-from-goroutine", "cancelled-before-call", "deadline-expired", "deadline-1ms", "child-of-cancelled-parent", "never",
+			"cancel-with-cause", "timeout-with-cause", "child-of-parent-cancelled-with-cause", "device-panics", "device-goexit"}[r.Intn(13)]
 		if pg.Halts && r.Bool() {
 			mode = "never"
 		}
@@ -264,6 +269,27 @@ func runC13(c *Ctx) {
 			p, parentCancel = context.WithCancel(base)
 			ctx, cancel = context.WithTimeout(p, time.Hour)
 			cancelAt = uint64(1 + r.Intn(3000)) // the parent is cancelled from the callback
+		case "cancel-with-cause":
+			// the context's error stays context.Canceled; the cause is somebody else's business
+			cc, cf := context.WithCancelCause(base)
+			ctx, cancel = cc, func() { cf(errC13Cause) }
+			cancelAt = uint64(1 + r.Intn(5000))
+		case "timeout-with-cause":
+			ctx, cancel = context.WithTimeoutCause(base, time.Millisecond, errC13Cause)
+		case "child-of-parent-cancelled-with-cause":
+			pc, pf := context.WithCancelCause(base)
+			parentCancel = func() { pf(errC13Cause) }
+			ctx, cancel = context.WithCancel(pc)
+			cancelAt = uint64(1 + r.Intn(3000))
+		case "device-panics", "device-goexit":
+			// Run is left by unwinding: the user's device panics (recovered by the caller) or
+			// ends its goroutine.  The context stays alive: nothing may stay behind.
+			if r.Bool() {
+				ctx, cancel = context.WithCancel(base)
+			} else {
+				ctx, cancel = context.WithTimeout(base, time.Hour)
+			}
+			cancelAt = uint64(1 + r.Intn(3000))
 		case "never":
 			// cancellable but never cancelled during the call; kept alive until the batch is accounted
 			if r.Bool() {
@@ -281,6 +307,12 @@ func runC13(c *Ctx) {
 		mem.Hook = func(m *mon.Mem, a mon.Access) {
 			if pg.Storm && a.Kind == 'W' {
 				cpu.Interrupt = z80.NMIInterrupt()
+			}
+			if cancelAt != 0 && m.Count == cancelAt && mode == "device-panics" {
+				panic(c13DeviceFault{})
+			}
+			if cancelAt != 0 && m.Count == cancelAt && mode == "device-goexit" {
+				runtime.Goexit()
 			}
 			if cancelAt != 0 && m.Count == cancelAt {
 				if parentCancel != nil {
@@ -323,12 +355,32 @@ func runC13(c *Ctx) {
 		}
 		var err error
 		var pan interface{}
-		func() {
-			defer func() { pan = recover() }()
-			err = cpu.Run(ctx)
-		}()
+		if mode == "device-goexit" {
+			done := make(chan struct{})
+			go func() {
+				defer close(done)
+				err = cpu.Run(ctx)
+			}()
+			<-done
+		} else {
+			func() {
+				defer func() { pan = recover() }()
+				err = cpu.Run(ctx)
+			}()
+		}
 		mem.Hook = nil
 		evals++
+		if _, ok := pan.(c13DeviceFault); ok || mode == "device-goexit" {
+			// no verdict on state or error: only that nothing stays behind (accounted per batch,
+			// with this context still alive)
+			if pg.Halts && mem.Count < cancelAt {
+				errKinds["nil(halted before the device failed)"]++
+			} else {
+				unwound++
+			}
+			live = append(live, cancel)
+			continue
+		}
 		ctxErr := ctx.Err()
 		w := func(what string) map[string]interface{} {
 			return map[string]interface{}{"what": what, "program": pg.Name, "mode": mode, "GOMAXPROCS": np, "R_start": h8(pre.IR.Lo),
@@ -520,6 +572,7 @@ func runC13(c *Ctx) {
 	c.R.Set("run_calls", evals)
 	c.R.Set("distinct_nontrivial", distinct.N())
 	c.R.Set("goroutines_left_behind", leaks)
+	c.R.Set("runs_left_by_unwinding_device_panic_or_goexit", unwound)
 	c.R.Set("not_prompt_trips", promptTrips)
 	c.R.Set("accesses_after_context_done_histogram", afterHist)
 	c.R.Set("returned", errKinds)
@@ -531,6 +584,6 @@ func runC13(c *Ctx) {
 	c.R.Set("gomaxprocs", pm)
 	c.R.Set("programs", int64(len(c13Progs)))
 	c.R.Set("exhaustive", false)
-	c.R.Set("rule", "Run calls on {JR loop, JP loop, JP (IX) loop and LDIR/OTIR/CPIR loops made of prefixed instructions only, INIR and LDIR loops, a port-polling loop, an NMI storm in which every acceptance's own stack write raises the next NMI, memories filled with one prefix/opcode pattern (DD, FD, DD FD, ED, CB, DD CB, NOP, RST 38), generated terminating programs} with starting R in {0,1,3,7F,random} x cancellation {from inside the program's own bus callback at access 1,2,10,1000,100000 or random, from a second goroutine after a random spin, cancelled before the call, deadline already expired, deadline in 1 ms, a child of a parent cancelled from the callback, never (program halts; context kept alive)} x GOMAXPROCS {1,2,16}. Oracle: returned error == ctx.Err() (nil with the halted state also legal for terminating programs); logical promptness: once the context is done every bus callback yields / sleeps 1 ms and Run may make at most 3000 further accesses (a correct loop needs 1..6) - a count, not a stopwatch; a refused maskable request pending at the call (1/3 of the loop programs) must still be pending afterwards; the final States and memory must equal a Step-driven twin advanced to the same access count (whole number of Steps); after every batch of 50 calls no goroutine with a z80 frame may remain, first while the batch's never-cancelled contexts are still alive, then after cancelling them; a hook-free phase runs short terminating programs with contexts that are done at about the moment of the HALT (no yields/sleeps anywhere) so that the race detector sees the HALT exit overlap the publication of the cancellation; zero race reports (binary built with -race). Distinct = distinct (program, GOMAXPROCS, cancellation instant, starting R, mode)")
+	c.R.Set("rule", "Run calls on {JR loop, JP loop, JP (IX) loop and LDIR/OTIR/CPIR loops made of prefixed instructions only, INIR and LDIR loops, a port-polling loop, an NMI storm in which every acceptance's own stack write raises the next NMI, memories filled with one prefix/opcode pattern (DD, FD, DD FD, ED, CB, DD CB, NOP, RST 38), generated terminating programs} with starting R in {0,1,3,7F,random} x cancellation {from inside the program's own bus callback at access 1,2,10,1000,100000 or random, from a second goroutine after a random spin, cancelled before the call, deadline already expired, deadline in 1 ms, a child of a parent cancelled from the callback, cancelled with a cause / timed out with a cause / child of a parent cancelled with a cause (Run must return ctx.Err(), not the cause), never (program halts; context kept alive), the user's device panicking (recovered by the caller) or ending the goroutine (runtime.Goexit) in the middle of Run with the context staying alive (only the nothing-left-behind rule is applied to these)} x GOMAXPROCS {1,2,16}. Oracle: returned error == ctx.Err() (nil with the halted state also legal for terminating programs); logical promptness: once the context is done every bus callback yields / sleeps 1 ms and Run may make at most 3000 further accesses (a correct loop needs 1..6) - a count, not a stopwatch; a refused maskable request pending at the call (1/3 of the loop programs) must still be pending afterwards; the final States and memory must equal a Step-driven twin advanced to the same access count (whole number of Steps); after every batch of 50 calls no goroutine with a z80 frame may remain, first while the batch's never-cancelled contexts are still alive, then after cancelling them; a hook-free phase runs short terminating programs with contexts that are done at about the moment of the HALT (no yields/sleeps anywhere) so that the race detector sees the HALT exit overlap the publication of the cancellation; zero race reports (binary built with -race). Distinct = distinct (program, GOMAXPROCS, cancellation instant, starting R, mode)")
 	c.R.Assume("nothing assumes that a watcher goroutine exists; leak accounting looks only at goroutines with frames of the code under test")
 }
